@@ -44,6 +44,23 @@ CHECKS["C14"] = dict(
     note=_XH_NOTE + " Floats are reals.",
     ref="DESIGN.md section 6 C14")
 
+_SMT_NOTE = "Trusted: the operator-overloading tracer (vlib/smt.py, ~300 lines), z3 5.1 (QF_NRA/NIA), NumPy's object-array dispatch to element operators; reals stand in for floats; uninterpreted functions for log / non-integer powers. Every counterexample is replayed on the real function with concrete numbers."
+CHECKS["C02"] = dict(engine="SMT+XH",
+    technique="symbolic execution of the real pc / pc_n / pc_joint: integer labels through REAL NumPy under a fork-on-branch tracer (z3), count vectors as symbolic integers/reals, tables of free strings with symbolic missing cells through pandas/NumPy contract models (CrossHair + z3)",
+    text="For N <= 5 (6 thorough) symbolic labels every way np.unique / intersect1d can order and group them is a path; on each path z3 shows the returned float equals (#coinciding ordered pairs)/(N(N-1)) (resp. cross pairs/(N1 N2)), lies in [0,1] and equals pc_n of the multiplicities. pc_n's closed form is decided for K <= 6 symbolic counts. Tables (2-3 rows x 1-3 columns, free strings or missing): rows coincide iff all columns agree; pc_joint on the selected columns returns the same number; the legacy tuple input goes through the same path.",
+    note=_SMT_NOTE + " Table conditions additionally trust the pandas/NumPy subset models (pandas 3.0 semantics).",
+    ref="DESIGN.md section 6 C02")
+CHECKS["C06"] = dict(engine="SMT",
+    technique="z3 refutation of the negated expectation identity over ALL real probability vectors, with coefficients obtained by evaluating the real pc_n / pc / varpc_n exactly on every count vector; symbolic tracing for stdpc_n / stdpc",
+    text="For each (K, N) in range the expectation of the real estimator is a polynomial in p whose coefficients come from running the real code on every composition of N; z3 proves the polynomial identity E[pc]=sum p^2 (homogenised), E[varpc_n]=Var(pc), E[pc(a,b)]=sum p q for all real p, q (unsat of the negation); a biased-denominator twin must be sat (vacuity control). stdpc_n == varpc_n**0.5 and stdpc(xs) == stdpc_n(counts) as term equalities.",
+    note=_SMT_NOTE,
+    ref="DESIGN.md section 6 C06")
+CHECKS["C16"] = dict(engine="SMT+XH",
+    technique="fork-on-branch tracing of chao1/chao2/var_chao1/var_chao2 on symbolic count vectors with z3 deciding result == closed form on every path (incl. NaN paths and no-raise); CrossHair + z3 for jaccard/overlap/overlap_coefficient on symbolic label collections",
+    text="Count vectors of length 1-4 with unbounded non-negative integer entries, list and ndarray form: every path of the real code returns the closed form (or NaN exactly when f2 is zero/absent), never raises, and a defined chao estimate is >= S_obs. Overlap utilities on lists/sets/Series of <= 3 symbolic labels with symbolic missing positions equal the set-algebra definition and are symmetric.",
+    note=_SMT_NOTE + " Overlap conditions trust CrossHair, the plugin and the pandas Series model.",
+    ref="DESIGN.md section 6 C16")
+
 NOT_APPLICABLE = {}
 
 def main():
@@ -56,7 +73,7 @@ def main():
         "engines": [
             {"name": "XH", "path": "vlib/xh_worker.py", "serves_properties": sorted(CHECKS),
              "kind_free_text": "path-wise symbolic execution of the real Python (CrossHair 0.0.110 + z3 5.1) with library contract models and a dict/set-display plugin"},
-            {"name": "SMT", "path": "vlib/smt_worker.py", "serves_properties": [],
+            {"name": "SMT", "path": "vlib/smt_worker.py", "serves_properties": sorted(k for k, v in CHECKS.items() if "SMT" in v.get("engine", "")),
              "kind_free_text": "z3/cvc5 queries on terms traced from the real arithmetic (operator-overloading tracer with fork-on-branch)"},
         ],
         "checks": [],
